@@ -348,8 +348,8 @@ enum Outcome { Done, StepPanicked(usize, String) }
 /// Walk an immutable recipe on the real types and run `f` on the final view.
 fn walk<D: Deref<Target = [i32]>>(v: &Inner<i32, D>, steps: &[Step], depth: usize, f: &mut dyn FnMut(&Inner<i32, &[i32]>)) -> Outcome {
     match steps.first() {
-        None => { let s = v.as_slice2(); f(&s); Outcome::Done }
-        Some(Step::AsView) => { let s = v.as_slice2(); walk(&*s, &steps[1..], depth + 1, f) }
+        None => { match caught(|| v.as_slice2()) { Ok(s) => { f(&s); Outcome::Done } Err(p) => Outcome::StepPanicked(usize::MAX - 1, format!("as_slice2() panicked: {p}")) } }
+        Some(Step::AsView) => { match caught(|| v.as_slice2()) { Ok(s) => walk(&*s, &steps[1..], depth + 1, f), Err(p) => Outcome::StepPanicked(usize::MAX - 1, format!("as_slice2() panicked: {p}")) } }
         Some(&Step::Slice { l, t, r, b, form }) => {
             match caught(|| v.slice(make_rect(l, t, r, b, form))) {
                 Ok(s) => walk(&*s, &steps[1..], depth + 1, f),
@@ -361,8 +361,8 @@ fn walk<D: Deref<Target = [i32]>>(v: &Inner<i32, D>, steps: &[Step], depth: usiz
 
 fn walk_mut<D: DerefMut<Target = [i32]>>(v: &mut Inner<i32, D>, steps: &[Step], depth: usize, f: &mut dyn FnMut(&mut Inner<i32, &mut [i32]>)) -> Outcome {
     match steps.first() {
-        None => { let mut s = v.as_mut_slice2(); f(&mut *s); Outcome::Done }
-        Some(Step::AsView) => { let mut s = v.as_mut_slice2(); walk_mut(&mut *s, &steps[1..], depth + 1, f) }
+        None => { match caught(|| v.as_mut_slice2()) { Ok(mut s) => { f(&mut *s); Outcome::Done } Err(p) => Outcome::StepPanicked(usize::MAX - 1, format!("as_mut_slice2() panicked: {p}")) } }
+        Some(Step::AsView) => { match caught(|| v.as_mut_slice2()) { Ok(mut s) => walk_mut(&mut *s, &steps[1..], depth + 1, f), Err(p) => Outcome::StepPanicked(usize::MAX - 1, format!("as_mut_slice2() panicked: {p}")) } }
         Some(&Step::Slice { l, t, r, b, form }) => {
             match caught(|| v.slice_mut(make_rect(l, t, r, b, form))) {
                 Ok(mut s) => walk_mut(&mut *s, &steps[1..], depth + 1, f),
@@ -519,12 +519,12 @@ fn check_outcome(oc: Outcome, geo: &Option<Geo>, cx: &mut Ctx, steps: &[Step], g
     match (oc, geo) {
         (Outcome::Done, Some(_)) => {}
         (Outcome::Done, None) => cx.viol("slice-oob-accepted", which.into(), format!("{which} with out-of-bounds rectangle did not panic")),
+        (Outcome::StepPanicked(d, p), _) if d == usize::MAX - 1 => { cx.viol("reborrow-panics", which.into(), format!("{which}: re-borrowing a valid view panicked: {p}")); }
         (Outcome::StepPanicked(d, p), _) => {
             let (zero, valid) = zero_upto(d);
             if !valid { cx.rep.h("oob-slice-panics"); }
-            // zero-area carve-out: constructing a zero-area view may panic
-            else if zero { cx.rep.h("zero-area-construction-panics(carve-out)"); }
-            else { cx.viol("slice-panics", which.into(), format!("{which}: in-bounds non-empty step {d} panicked: {p}")); }
+            // an in-bounds rectangle - empty ones included, like `&v[len..len]` - is a valid view of the plain-array model
+            else { cx.viol(if zero { "slice-panics|empty-rect" } else { "slice-panics" }, which.into(), format!("{which}: in-bounds {}step {d} panicked: {p}", if zero { "(empty) " } else { "" })); }
         }
     }
 }
